@@ -127,6 +127,17 @@ def _check(ctx: Ctx) -> None:
                         or (isinstance(n, ast.AugAssign) and isinstance(n.target, ast.Name) and n.target.id == flag and isinstance(n.op, ast.BitOr))]
         lower = p.settings.get("NOTE_LOWER_BOUND")
         upper = p.settings.get("NOTE_UPPER_BOUND")
+        # a per-note relay: `w = False` ... `w = True` in the wrap loops ... `if w: flag = True` -- the flag is set exactly when w was
+        relays = set()
+        for n in ast.walk(loop):
+            if isinstance(n, ast.If) and isinstance(n.test, ast.Name) and not n.orelse and len(n.body) == 1 and isinstance(n.body[0], ast.Assign) \
+                    and any(isinstance(t, ast.Name) and t.id == flag for t in n.body[0].targets) and isinstance(n.body[0].value, ast.Constant) and n.body[0].value.value is True:
+                w_ = n.test.id
+                asg = [a for a in ast.walk(loop) if isinstance(a, ast.Assign) and any(isinstance(t, ast.Name) and t.id == w_ for t in a.targets)]
+                if asg and all(isinstance(a.value, ast.Constant) and isinstance(a.value.value, bool) for a in asg) \
+                        and any(a.value.value is False and a.lineno < n.lineno and not any(isinstance(x, ast.While) for x in ancestors(a) if x is not loop and x in list(ast.walk(loop)))
+                                for a in asg):
+                    relays.add(w_)
         kinds = {}
         for w in whiles:
             tst = w.test
@@ -148,7 +159,7 @@ def _check(ctx: Ctx) -> None:
                 ctx.check(good, "WRAP", f"{FN}: {k} wrap loop moves by one octave towards the range", function=FN,
                           construct=f"{k} wrap loop does not move the pitch by exactly one octave in the right direction",
                           message=f"`{short(w)}`", file=fi.file, node=w)
-                sets = [n for n in ast.walk(w) if isinstance(n, ast.Assign) and any(isinstance(t, ast.Name) and t.id == flag for t in n.targets)
+                sets = [n for n in ast.walk(w) if isinstance(n, ast.Assign) and any(isinstance(t, ast.Name) and (t.id == flag or t.id in relays) for t in n.targets)
                         and isinstance(n.value, ast.Constant) and n.value.value is True]
                 if not sets and accumulating:
                     ctx.undetermined("WRAP", f"{FN}: {k} wrap loop sets the flag",
@@ -170,6 +181,12 @@ def _check(ctx: Ctx) -> None:
         for n in walk_local(fi.node):
             if isinstance(n, ast.Assign) and any(isinstance(t, ast.Name) and t.id == flag for t in n.targets):
                 inside = any(isinstance(a, ast.While) and kinds.get(id(a)) in ("low", "high") for a in ancestors(n))
+                par = getattr(n, "_parent", None)
+                if not inside and isinstance(par, ast.If) and isinstance(par.test, ast.Name) and par.test.id in relays:
+                    # set through the relay: the relay itself becomes True only inside the wrap loops
+                    inside = all(any(isinstance(a, ast.While) and kinds.get(id(a)) in ("low", "high") for a in ancestors(x))
+                                 for x in ast.walk(loop) if isinstance(x, ast.Assign) and any(isinstance(t, ast.Name) and t.id == par.test.id for t in x.targets)
+                                 and isinstance(x.value, ast.Constant) and x.value.value is True)
                 if isinstance(n.value, ast.Constant) and n.value.value is True and delegated and not any(k in ("low", "high") for k in kinds.values()):
                     ctx.undetermined("WRAP", f"{FN}: `{flag} = True`", "the wrap loops live in a helper: flag placement not judged")
                 elif isinstance(n.value, ast.Constant) and n.value.value is True:
